@@ -351,3 +351,53 @@ def phase_amb(pid, tier, rng, ev, rep, tmp, extra_specs=()):
         c03.judge(pid, [c for c in C.pmap(c03.observe_case, out) if not c['skip']], ev, rep, tmp, 'builder-amb-drift')
     if ev.cov['counts'].get('builder_amb_reductions_returning__ambig', 0) < (300 if C.scale(100) == 100 else 1):
         raise C.MachineryFailure('vacuity (ambiguous builder): %s' % ev.cov['counts'])
+
+
+# ---- the compilation EBNF -> BNF (Compile.tla / TraceCompile.tla) -----------------------------------------------------------
+def observe_compile(spec):
+    import logging
+    logging.disable(logging.CRITICAL)
+    from lark import Lark
+    G, ka, ph = spec['G'], spec['ka'], spec['ph']
+    gtext = E.grammar_text(G)
+    out = {'gtext': gtext, 'ka': ka, 'ph': ph, 'skip': '', 'G': E.grammar_json(G, ka, ph)}
+    try:
+        with O.budget(30):
+            p = Lark(gtext, parser='earley', lexer='basic', keep_all_tokens=ka, maybe_placeholders=ph)
+    except Exception as ex:
+        out['skip'] = type(ex).__name__
+        return out
+    real = []
+    for r in p.rules:
+        o = r.options
+        real.append({'origin': str(r.origin.name), 'rhs': [str(x.name) for x in r.expansion], 'alias': str(r.alias or ''), 'expand1': bool(o.expand1),
+                     'keepall': bool(o.keep_all_tokens), 'empty': [bool(b) for b in (o.empty_indices or ())] if ph and any(o.empty_indices or ()) else [],
+                     'fo': [bool(getattr(x, 'filter_out', False)) if x.is_term else False for x in r.expansion]})
+    out['real'] = real
+    return out
+
+
+def compile_phase(pid, tier, rng, ev, tmp):
+    """drift level: the real compiled rules against Compile.tla"""
+    import os
+    sps = [{'G': s['G'], 'ka': s['ka'], 'ph': s['ph']} for s in specs(C.scale(1500 if tier == 'quick' else 12000), rng)]
+    cases = [c for c in C.pmap(observe_compile, sps) if not c['skip']]
+    ev.count('compiled_grammars_compared', len(cases))
+    ev.count('compiled_rules_compared', sum(len(c['real']) for c in cases))
+    CH = 500
+    paths = [C.write_batch({'cases': [{'G': c['G'], 'real': c['real']} for c in cases[o:o + CH]]}, tmp, 'compile_%d.json' % o) for o in range(0, len(cases), CH)]
+    results = C.tlc_parallel('TraceCompile', TRACE_CFG, paths, continue_=True, timeout=3000)
+    drift = []
+    for pi, res in enumerate(results):
+        C.tlc_must_run(res, 'TraceCompile')
+        ev.add_tlc('TraceCompile', res, 'trace')
+        os.remove(paths[pi])
+        for v in sorted(set(tuple(x) for x in res.verdicts)):
+            c = cases[pi * CH + int(v[0]) - 1]
+            drift.append({'clause': v[2], 'grammar': c['gtext'], 'keep_all_tokens': c['ka'], 'maybe_placeholders': c['ph'], 'real': c['real']})
+    ev.cov['drift'] = ev.cov.get('drift', 0) + len(drift)
+    ev.cov['drift_samples'] = ev.cov.get('drift_samples', []) + [{k: d[k] for k in ('clause', 'grammar')} for d in drift[:3]]
+    if drift:
+        print('DRIFT property=%s the compiled rules of %d grammar(s) differ from Compile.tla (not a violation by itself; first: %s)'
+              % (pid, len(drift), json.dumps({k: drift[0][k] for k in ('clause', 'grammar')})[:300]))
+    return drift
